@@ -25,7 +25,9 @@ TIERS = {
     "thorough": dict(runs=15000, wall=6 * 3600, hashseeds=[0], node_seeds=[0, 1, 2, 3, 5, 7, 11, 13, 77, 101, 1234, 4242, 9999, 31337, 65537, 99991], fault_p=0.12),
 }
 SPECIAL_VALS = ["a;b", "k=v", "50%", "100%25", "semi%3Bcolon", "tab\there", "new\nline", "cr\rhere", "two words", "x>y", "R&D", "it's", "café", "α-helix",
-                "x,y", "UPPER", "  padded", "trailing ", "percent%", "%41", "=lead", ";", "a=b;c=d", "日本"]
+                "x,y", "UPPER", "  padded", "trailing ", "percent%", "%41", "=lead", ";", "a=b;c=d", "日本",
+                # whitespace-only and placeholder-looking values (a writer that "cleans up" values must not eat them)
+                " ", "\t", " \n ", "\u00a0", "nan", "None", ".", "-"]
 PLAIN_VALS = specs.QUAL_VALS_PLAIN
 SPECIAL_KEYS = ["k%", "a b", "semi;colon", "eq=k", "Über", "MixedCase", "tab\tk", "k>1", "k&r"]
 PLAIN_KEYS = ["note", "db_xref", "inference", "function", "go_component", "old_locus_tag", "experiment", "kz"]
